@@ -301,18 +301,19 @@ Proof.
   assert (Hinv : forall st', s_days st' = s_days st -> s_zero st' = s_zero st -> s_secs st' = s_secs st ->
                              s_close st' = s_close st -> s_notes st' = s_notes st ++ [note_of c] ->
                              Inv1 (p ++ [c]) st').
-  { intros st' E1 E2 E3 E4 E5. destruct HI. constructor; rewrite ?E1, ?E2, ?E3, ?E4, ?E5.
-    - assumption.
-    - intros d s. rewrite i_days0. unfold dmax. rewrite Hrows. reflexivity.
-    - assumption.
-    - intros d. rewrite i_keys_in0. split; intros [c' [Hin [Hc' Hd]]]; exists c'; repeat split; try assumption.
+  { intros st' E1 E2 E3 E4 E5. constructor; rewrite ?E1, ?E2, ?E3, ?E4, ?E5.
+    - apply (i_days_ok _ _ HI).
+    - intros d s. rewrite (i_days _ _ HI). unfold dmax. rewrite Hrows. reflexivity.
+    - apply (i_keys _ _ HI).
+    - intros d. rewrite (i_keys_in _ _ HI).
+      split; intros [c' [Hin [Hc' Hd]]]; exists c'; repeat split; try assumption.
       + apply in_or_app. left. exact Hin.
       + apply in_app_or in Hin. destruct Hin as [Hin|[E|[]]]; [exact Hin|]. subst c'. congruence.
-    - intros d s. rewrite i_close0. unfold dclose. rewrite Hrows. reflexivity.
-    - intros s. rewrite i_zero0. unfold zero_of. rewrite Hrows. reflexivity.
-    - assumption.
-    - intros s. rewrite i_secs_in0, Hrows. reflexivity.
-    - rewrite spec_notes_snoc, Hc, i_notes0. reflexivity. }
+    - intros d s. rewrite (i_close _ _ HI). unfold dclose. rewrite Hrows. reflexivity.
+    - intros s. rewrite (i_zero _ _ HI). unfold zero_of. rewrite Hrows. reflexivity.
+    - apply (i_secs _ _ HI).
+    - intros s. rewrite (i_secs_in _ _ HI), Hrows. reflexivity.
+    - rewrite spec_notes_snoc, Hc, (i_notes _ _ HI). reflexivity. }
   unfold step1. destruct (cd_post c) as [acb|] eqn:Ep.
   - cbn [is_some andb] in Hm. rewrite <- Hm. cbn [negb].
     eexists. split; [reflexivity|]. apply Hinv; try reflexivity.
